@@ -167,6 +167,12 @@ func (r *Reporter) readSourceLines(filename string, lineNum, before, after int) 
 		return sourceLines{}
 	}
 
+	// The reported line itself is not available (file changed on disk, or a line too long
+	// for the scanner): context alone without the line it belongs to is misleading
+	if lineNum < 1 || lineNum > len(lines) {
+		return sourceLines{}
+	}
+
 	start := lineNum - before - 1 // Convert to 0-based index
 	if start < 0 {
 		start = 0
